@@ -55,7 +55,8 @@ def tla_seed(d):
            tla_str(s["cls"])) for s in d["sites"])
     streams = ", ".join("[id |-> %s, plen |-> %d]" % (tla_str(t["id"]), t["plen"]) for t in d["streams"])
     ents = ", ".join("[id |-> %s, form |-> %s]" % (tla_str(e["id"]), tla_str(e["form"])) for e in d["ents"])
-    return "[sites |-> {\n    %s},\n   streams |-> {%s},\n   ents |-> {%s},\n   flen |-> %d]" % (sites, streams, ents, d["flen"])
+    return "[sites |-> {\n    %s},\n   streams |-> {%s},\n   ents |-> {%s},\n   flen |-> %d, enc |-> %s]" % (
+        sites, streams, ents, d["flen"], "TRUE" if d["enc"] else "FALSE")
 
 
 def enumerate_faults(ck, descs, variants=(0, 1), pstride=1, fstride=1, coverage=False, label="Faults"):
@@ -91,12 +92,22 @@ def stratum(fd):
     return (fd["cls"], fd["kind"], fd.get("to", ""))
 
 
-def sample_faults(faults, seed):
-    """deterministic stratified sample: per (seed document, class, kind, target) a few faults"""
+def sample_faults(faults, seed, descs):
+    """deterministic stratified sample: per (seed document, class, kind, target) a few faults.
+    Strings that are no ciphertext (rawstr, encrypted seeds) are stratified further - by form, by whether the site
+    sits in a directly stored object (only those are deciphered string by string: members of object streams and the
+    trailer are not) and by whether the site held a string before - so that every quick run plants short raw strings
+    at string-valued and at non-string-valued sites of directly stored objects of every encrypted seed."""
     rng = random.Random(seed)
+    direct = {d["name"]: set(d["direct_owners"]) for d in descs}
+    base = {d["name"]: {x["id"]: x["base"] for x in d["sites"]} for d in descs}
     groups = collections.OrderedDict()
     for s, fd in faults:
-        groups.setdefault((s,) + stratum(fd), []).append((s, fd))
+        key = (s,) + stratum(fd)
+        if fd["kind"] == "rawstr":
+            owner = fd["site"].split("/")[0]
+            key += (fd["variant"], owner in direct[s], base[s].get(fd["site"]) == "string")
+        groups.setdefault(key, []).append((s, fd))
     out = []
     for key, g in groups.items():
         k = QUICK_PER_STRATUM[key[1]]
@@ -228,7 +239,7 @@ def run(ck):
     per_seed = collections.Counter(s for s, _ in faults)
     ck.extra["fault_space"] = {"total": len(faults), "per_seed": dict(per_seed),
                                "per_class": dict(collections.Counter(fd["cls"] for _, fd in faults))}
-    chosen = faults if thorough else sample_faults(faults, ck.seed)
+    chosen = faults if thorough else sample_faults(faults, ck.seed, descs)
     ck.extra["faults_applied"] = len(chosen)
     campaign(ck, chosen, "fault campaign (%s)" % ("complete" if thorough else "stratified sample, seed %d" % ck.seed))
     ck.replayed += len(chosen)
